@@ -130,13 +130,49 @@ pub fn run(ctx: &Ctx) -> Report {
         if let Some((sig, d)) = check(t) { acc.violation(sig, if t.len() > 200 { format!("ladder:{i}") } else { sig_input(t) }, format!("{d} on ladder input #{i} ({} bytes, starts {:?})", t.len(), &t[..t.len().min(30)])); }
     });
     rep.absorb(r);
+    // scale: 12 kinds of very long / very repetitive inputs x 6 sizes (255 .. 10^6), each evaluated in its own process
+    let r = sweep(ctx, (GEN_KINDS.len() * GEN_N.len()) as u64, 1, |i, acc| {
+        let (kind, n) = ((i as usize) / GEN_N.len(), GEN_N[(i as usize) % GEN_N.len()]);
+        if (kind == 7 || kind == 0) && n > 65_536 { return; } // runs of statement-less lines are parsed in quadratic time: kept below a minute
+        acc.evals += 1; acc.transitions += n as u64; acc.nontrivial += 1; acc.count("isolated_scale_inputs", 1);
+        match isolated("C04", &format!("iso:gen:{kind}:{n}")) {
+            Ok(None) => {}
+            Ok(Some(d)) => { let sig = d.split(']').next().unwrap_or("").trim_start_matches('[').to_string(); acc.violation(if sig.is_empty() { "isolated".into() } else { sig }, format!("iso:gen:{kind}:{n}"), format!("{} (n = {n}): {d}", GEN_KINDS[kind])); }
+            Err(e) => acc.violation("machinery:isolated".to_string(), format!("iso:gen:{kind}:{n}"), e),
+        }
+    });
+    rep.absorb(r);
     rep.bound("max_length", Json::i(maxlen as u64)); rep.bound("alphabet", Json::i(18)); rep.bound("texts", Json::i(texts.len() as u64));
     rep.require(rep.acc.get("rejected") > 1000 && rep.acc.get("accepted") > 1000, "both accepted and rejected inputs explored");
     rep
 }
 fn parse_ok(s: &str) -> Option<bool> { catch(|| parse_ast(s).is_ok()).ok() }
 
+/// scale inputs, identified by (kind, n): nesting / repetition / length far beyond the small scope; evaluated in a child process because a
+/// stack overflow aborts instead of unwinding
+const GEN_KINDS: [&str; 12] = ["n label lines before one statement", "n labels on one line before one statement", "an identifier of n characters", "a decimal literal of n digits", "a string literal of n characters",
+    "n commas", "a comment of n characters", "n blank lines then a statement", "n `L:` label-colon pairs on one line", "n statements", "n nested-looking quotes and backslashes", "a hex literal of n digits"];
+const GEN_N: [usize; 6] = [255, 4096, 20_000, 65_536, 200_000, 1_000_000];
+fn gen_text(kind: usize, n: usize) -> String {
+    match kind {
+        0 => { let mut s = String::from(".orig x3000\n"); for k in 0..n { s.push_str(&format!("L{k}\n")); } s.push_str("HALT\n.end\n"); s }
+        1 => { let mut s = String::from(".orig x3000\n"); for k in 0..n { s.push_str(&format!("L{k} ")); } s.push_str("HALT\n.end\n"); s }
+        2 => format!(".orig x3000\nL{} HALT\n.end\n", "a".repeat(n)),
+        3 => format!(".fill #{}\n", "9".repeat(n)),
+        4 => format!(".stringz \"{}\"\n", "s".repeat(n)),
+        5 => format!("ADD R0{}\n", ",".repeat(n)),
+        6 => format!("HALT ;{}\n", "c".repeat(n)),
+        7 => format!("{}HALT\n", "\n".repeat(n)),
+        8 => format!("{}HALT\n", "L: ".repeat(n)),
+        9 => "ADD R0, R0, #1\n".repeat(n),
+        10 => format!(".stringz \"{}\n", "\\\"".repeat(n)),
+        _ => format!(".fill x{}\n", "F".repeat(n)),
+    }
+}
+fn check_gen(kind: usize, n: usize) -> Option<(String, String)> { check(&gen_text(kind, n)) }
+
 pub fn replay(case: &str) -> Option<String> {
+    if let Some(r) = case.strip_prefix("iso:gen:") { let (k, n) = r.split_once(':')?; return check_gen(k.parse().ok()?, n.parse().ok()?).map(|x| format!("[{}] {}", x.0, x.1)); }
     if let Some(i) = case.strip_prefix("ladder:") {
         // rebuild the ladder deterministically
         let i: usize = i.parse().ok()?;
